@@ -130,7 +130,9 @@ GEN_PEERS = {
 def write_cfg(path, spec, consts, invariants=(), props=(), view=None, postcondition=None, constraint=None):
     lines = ["SPECIFICATION %s" % spec, "CONSTANTS"]
     for k, v in consts.items():
-        if k in GEN_SUBST or (isinstance(v, str) and v[:1].isalpha() and v not in ("TRUE", "FALSE")):
+        if isinstance(v, str) and v[:1] == "{":
+            lines.append("  %s = %s" % (k, v))
+        elif k in GEN_SUBST or (isinstance(v, str) and v[:1].isalpha() and v not in ("TRUE", "FALSE")):
             lines.append("  %s <- %s" % (k, v))
         else:
             lines.append("  %s = %s" % (k, v))
